@@ -32,6 +32,9 @@ IsParam(s) == Len(s) >= 2 /\ SubSeq(s, 1, 1) = "{" /\ SubSeq(s, Len(s), Len(s)) 
 RECURSIVE Join(_, _)
 Join(segs, i) == IF i > Len(segs) THEN "" ELSE (IF i > 1 THEN "/" ELSE "") \o segs[i] \o Join(segs, i + 1)
 
+RECURSIVE JoinD(_, _)
+JoinD(segs, i) == IF i > Len(segs) THEN "" ELSE (IF i > 1 THEN "//" ELSE "") \o segs[i] \o JoinD(segs, i + 1)
+
 \* the raw text handed to the detector; normalisation must forget the form
 Render(e) ==
     LET body == Join(e.segs, 1) IN
@@ -39,6 +42,8 @@ Render(e) ==
       [] e.form = "nolead" -> body
       [] e.form = "trail"  -> "/" \o body \o (IF e.segs = <<>> THEN "" ELSE "/")
       [] e.form = "dbl"    -> "//" \o body
+      [] e.form = "dtrail" -> "/" \o body \o (IF e.segs = <<>> THEN "/" ELSE "//")        \* two trailing slashes
+      [] e.form = "dmid"   -> "/" \o JoinD(e.segs, 1)                                      \* doubled slashes between segments
       [] OTHER             -> "/" \o body
 
 --------------------------------------------------------------------------
